@@ -319,7 +319,7 @@ theorem gateway_release_bound (w : World) (hw : WorldOK w) (granted : Grants) (g
     (h : generate w c ⟨vid, cluster, some (verifiedRefs granted vid gws)⟩ names req = some o)
     (name : Str) (v : Val) (hm : (name, v) ∈ o.res) (hk : v.hasKey = true) :
     ∃ id sr, vid = some id ∧ parseResourceName name id.ns cluster w.configCluster = some sr ∧
-      (∃ cl ∈ w.clusters, (cl.id = cluster ∨ cl.id = w.configCluster) ∧
+      (∃ cl ∈ w.clusters, (cl.id = w.configCluster ∨ (sr.rtype = .kubernetes ∧ cl.id = cluster)) ∧
         ∃ d, cl.secrets sr.name sr.ns = some d ∧ extractCertInfo d = some v) ∧
       ((sr.rtype = .kubernetes ∧ sr.ns = id.ns) ∨
        (sr.rtype = .gateway ∧ ∃ g, g ∈ gws ∧ id.ns = g.expectedNs ∧ (id.sa = g.saAnn ∨ g.saAnn = []) ∧
